@@ -1012,6 +1012,7 @@ var stlUnicodeMapping = astikit.NewBiMap().
 	Set(byte('\xde'), "\u215D"). // ⅝
 	Set(byte('\xdf'), "\u215E"). // ⅞
 	Set(byte('\xe0'), "\u2126"). // Ohm Ω
+	Set(byte('\xe0'), "\u03a9"). // Ohm Ω after canonical decomposition (U+2126 decomposes to U+03A9)
 	Set(byte('\xe1'), "\u00C6"). // Æ
 	Set(byte('\xe2'), "\u0110"). // Đ
 	Set(byte('\xe3'), "\u00AA"). // ª
